@@ -444,3 +444,160 @@ Section WrittenChildren.
   Lemma w_children_sgmd : children f [b_sample; b_group_metadata] = sgmd.
   Proof. unfold f. kids. Qed.
 End WrittenChildren.
+
+(* ------------------------------------------------------------------ axis_load on a written file *)
+Definition loaded_rows (rows : list mdrow) : list mdrow :=
+  match rows with
+  | [] => []
+  | r0 :: _ => map (fun i => map (fun k => (k, nth i (column rows k) MNone)) (mdkeys r0)) (seq 0 (length rows))
+  end.
+Definition md_loaded (md : option (list mdrow)) : option (list mdrow) :=
+  match md with Some (r0 :: rest) => Some (loaded_rows (r0 :: rest)) | _ => None end.
+
+Lemma mapM_map {A B C} (F : B -> result C) (h : A -> B) l : mapM F (map h l) = mapM (fun x => F (h x)) l.
+Proof. induction l as [|x l IH]; [reflexivity|]. cbn [map mapM]. rewrite IH. reflexivity. Qed.
+
+Lemma load_ids_ok ids : Forall text ids ->
+  load_ids (match ids with [] => dnum KF64 [] | _ => dstr1 (map utf8_encode ids) end) = ROk ids.
+Proof.
+  intros F. destruct ids as [|i t]; [reflexivity|]. unfold load_ids. cbn [dstr1 d_kind d_str].
+  apply mapM_dec_enc. exact F.
+Qed.
+
+Lemma column_length rows k : length (column rows k) = length rows.
+Proof. apply map_length. Qed.
+
+Lemma rows_of_cols keys (g : str -> list mdval) i : (forall k, In k keys -> i < length (g k)) ->
+  flat_map (fun cv : str * list mdval => match nth_error (snd cv) i with Some v => [(fst cv, v)] | None => [] end)
+           (map (fun k => (k, g k)) keys)
+  = map (fun k => (k, nth i (g k) MNone)) keys.
+Proof.
+  induction keys as [|k t IH]; intros H; [reflexivity|]. cbn [map flat_map fst snd].
+  rewrite (nth_error_nth' (g k) MNone) by (apply H; left; reflexivity). cbn [app]. f_equal.
+  apply IH. intros k' Hk'. apply H. right. exact Hk'.
+Qed.
+
+Lemma existsb_all_empty {A} (l : list A) :
+  existsb (fun r : mdrow => match r with [] => false | _ => true end) (map (fun _ => []) l) = false.
+Proof. induction l as [|x l IH]; [reflexivity|exact IH]. Qed.
+
+Theorem parse_md_written r0 rest n : md_homogeneous (Some (r0 :: rest)) n ->
+  mapM (fun nd => bind (dec (fst nd)) (fun name =>
+                  bind (parse_column (unsanitize name) (snd nd)) (fun vals => ROk (unsanitize name, vals))))
+       (md_dsets (r0 :: rest))
+  = ROk (map (fun k => (k, column (r0 :: rest) k)) (mdkeys r0)).
+Proof.
+  intros (_ & _ & Hnd & Hcat & Hrest & Hcol). unfold md_dsets. rewrite mapM_map. apply mapM_ok.
+  apply Forall_forall. intros k Hk. rewrite Forall_forall in Hcat, Hcol. cbn [fst snd].
+  rewrite dec_enc by (apply text_catname; apply Hcat; exact Hk). cbn [bind].
+  rewrite catname_back by (apply Hcat; exact Hk).
+  rewrite parse_column_ok; [reflexivity|discriminate|apply Hcol; exact Hk].
+Qed.
+
+Theorem axis_load_ok f a ids md gmd :
+  get_dset (dsets f) [a; b_ids] = Some (match ids with [] => dnum KF64 [] | _ => dstr1 (map utf8_encode ids) end) ->
+  has_group f [a; b_metadata] = true -> has_group f [a; b_group_metadata] = true ->
+  children f [a; b_metadata] = md_written md -> children f [a; b_group_metadata] = gmd_written gmd ->
+  Forall text ids -> md_homogeneous md (length ids) -> gmd_ok gmd ->
+  axis_load f a = ROk (ids, md_loaded md, map (fun e => (fst e, snd (snd e))) gmd).
+Proof.
+  intros Hids Hg1 Hg2 Hc1 Hc2 Tids Hmd Hgmd. unfold axis_load, need_dset.
+  rewrite Hids. cbn [bind]. rewrite load_ids_ok by exact Tids. cbn [bind]. rewrite Hg1, Hg2. cbn [bind]. rewrite Hc1, Hc2.
+  assert (G : mapM (fun nd => bind (dec (fst nd)) (fun name =>
+                bind (match d_str (snd nd) with b :: _ => dec b | [] => RErr E_OTHER end) (fun v => ROk (name, v))))
+                   (gmd_written gmd) = ROk (map (fun e => (fst e, snd (snd e))) gmd)).
+  { unfold gmd_written. rewrite mapM_map. apply mapM_ok. apply Forall_forall. intros e He.
+    destruct Hgmd as [_ F]. rewrite Forall_forall in F. destruct (F e He) as (T1 & _ & _ & T3).
+    cbn [fst snd d_str]. rewrite !dec_enc by assumption. reflexivity. }
+  destruct md as [[|r0 rest]|].
+  - (* metadata present but the axis is empty *)
+    destruct Hmd as [Hlen _]. cbn [length] in Hlen. rewrite <- Hlen.
+    cbn [md_written md_dsets mapM bind seq map existsb]. rewrite G. reflexivity.
+  - pose proof Hmd as (Hlen & Hne & _). cbn [md_written].
+    rewrite (parse_md_written r0 rest _ Hmd). cbn [bind]. rewrite G. cbn [bind md_loaded]. do 2 f_equal.
+    rewrite <- Hlen.
+    assert (R : map (fun i => flat_map (fun cv : str * list mdval => match nth_error (snd cv) i with
+                                            | Some v => [(fst cv, v)] | None => [] end)
+                                      (map (fun k => (k, column (r0 :: rest) k)) (mdkeys r0)))
+                    (seq 0 (length (r0 :: rest))) = loaded_rows (r0 :: rest)).
+    { unfold loaded_rows. apply map_ext_in. intros i Hi. apply in_seq in Hi. apply rows_of_cols.
+      intros k _. rewrite column_length. lia. }
+    rewrite R. unfold loaded_rows. cbn [length seq map existsb].
+    destruct r0 as [|kv r0']; [congruence|]. reflexivity.
+  - cbn [md_written mapM bind]. cbn [flat_map]. rewrite existsb_all_empty. rewrite G. reflexivity.
+Qed.
+
+(* ------------------------------------------------------------------ loaded metadata agrees with the source *)
+Lemma subsetb_In a b : subsetb a b = true -> forall k, In k a -> In k b.
+Proof.
+  unfold subsetb. intros H k Hk. rewrite forallb_forall in H. specialize (H k Hk).
+  apply existsb_exists in H. destruct H as [y [Hy E]]. apply lz_eqb_eq in E. subst. exact Hy.
+Qed.
+
+Lemma same_keys_iff r r0 : same_keys r r0 = true -> forall k, In k (mdkeys r) <-> In k (mdkeys r0).
+Proof.
+  unfold same_keys. intros H k. apply andb_true_iff in H. destruct H as [A B].
+  split; [apply subsetb_In; exact A|apply subsetb_In; exact B].
+Qed.
+
+Lemma mdget_In r k : In k (mdkeys r) -> exists v, mdget r k = Some v.
+Proof.
+  induction r as [|[k' v'] t IH]; intros H; [contradiction|]. cbn [mdget].
+  destruct (lz_eqb k k') eqn:E; [exists v'; reflexivity|]. apply IH. destruct H as [H|H]; [|exact H].
+  cbn [fst] in H. subst. rewrite lz_eqb_refl in E. discriminate.
+Qed.
+
+Lemma mdget_notIn r k : ~ In k (mdkeys r) -> mdget r k = None.
+Proof.
+  induction r as [|[k' v'] t IH]; intros H; [reflexivity|]. cbn [mdget].
+  destruct (lz_eqb k k') eqn:E.
+  - apply lz_eqb_eq in E. subst. exfalso. apply H. left. reflexivity.
+  - apply IH. intros Hi. apply H. right. exact Hi.
+Qed.
+
+Lemma mdget_map keys (g : str -> mdval) k :
+  mdget (map (fun k => (k, g k)) keys) k = if existsb (lz_eqb k) keys then Some (g k) else None.
+Proof.
+  induction keys as [|k' t IH]; [reflexivity|]. cbn [map mdget existsb].
+  destruct (lz_eqb k k') eqn:E; [apply lz_eqb_eq in E; subst; reflexivity|exact IH].
+Qed.
+
+Lemma existsb_lz_In k l : existsb (lz_eqb k) l = true <-> In k l.
+Proof.
+  rewrite existsb_exists. split.
+  - intros [y [Hy E]]. apply lz_eqb_eq in E. subst. exact Hy.
+  - intros H. exists k. split; [exact H|apply lz_eqb_refl].
+Qed.
+
+Lemma Forall2_seq {A B} (R : A -> B -> Prop) (f : nat -> A) (l : list B) d :
+  (forall i, i < length l -> R (f i) (nth i l d)) -> Forall2 R (map f (seq 0 (length l))) l.
+Proof.
+  revert f. induction l as [|x l IH]; intros f H; [constructor|]. cbn [length seq map]. constructor.
+  - apply (H 0). cbn [length]. lia.
+  - rewrite <- seq_shift, map_map. apply IH. intros i Hi. apply (H (S i)). cbn [length]. lia.
+Qed.
+
+Lemma nth_column rows k i :
+  nth i (column rows k) MNone = match mdget (nth i rows []) k with Some v => v | None => MNone end.
+Proof. unfold column. exact (map_nth (fun r => match mdget r k with Some v => v | None => MNone end) rows [] i). Qed.
+
+Lemma nonempty_head (r0 : mdrow) rest : r0 <> [] ->
+  existsb (fun r : mdrow => match r with [] => false | _ => true end) (r0 :: rest) = true.
+Proof. destruct r0; [congruence|reflexivity]. Qed.
+
+Theorem md_loaded_agree md n : md_homogeneous md n -> md_agree (md_loaded md) (md_norm md).
+Proof.
+  destruct md as [[|r0 rest]|]; try (intros; exact I).
+  intros (_ & Hne & Hnd & _ & Hrest & _). unfold md_norm, md_loaded. rewrite nonempty_head by exact Hne.
+  cbn [md_agree]. unfold loaded_rows. apply (Forall2_seq row_agree _ (r0 :: rest) []). intros i Hi.
+  assert (Hkeys : forall k, In k (mdkeys (nth i (r0 :: rest) [])) <-> In k (mdkeys r0)).
+  { destruct i as [|i]; [intros k; reflexivity|]. cbn [nth]. apply same_keys_iff.
+    rewrite Forall_forall in Hrest. apply Hrest. apply nth_In. cbn [length] in Hi. apply Nat.succ_lt_mono. exact Hi. }
+  split.
+  - intros k. unfold mdkeys at 1. rewrite map_map. cbn [fst]. rewrite map_id. symmetry. apply Hkeys.
+  - intros k. rewrite (mdget_map (mdkeys r0) (fun k => nth i (column (r0 :: rest) k) MNone) k).
+    rewrite nth_column.
+    destruct (existsb (lz_eqb k) (mdkeys r0)) eqn:E.
+    + apply existsb_lz_In in E. apply Hkeys in E. destruct (mdget_In _ _ E) as [v Hv]. rewrite Hv. reflexivity.
+    + symmetry. apply mdget_notIn. intros Hi'. apply Hkeys in Hi'. apply existsb_lz_In in Hi'. congruence.
+Qed.
